@@ -15,6 +15,7 @@ import Cinco.Generated.Effects
 import Cinco.Crypto.Aes256
 import Cinco.Crypto.Hashes
 import Cinco.Config.Links
+import Cinco.Proxy.CopyDepth
 /-
   Line-protocol driver: one JSON object per line in, one per line out.
   Every reply is `{"ok": ...}` or `{"err": "..."}` (protocol error) — never a default.
@@ -237,6 +238,23 @@ def handle (cmd : String) (j : Json) : R Json := do
                                    ("reported", Json.arr (held.map (fun x => match Links.reported s' x with
                                       | some i => Json.num (JsonNumber.fromNat i) | none => Json.null)).toArray),
                                    ("next", Json.num (JsonNumber.fromNat s'.next))]])) (Links.init, [])
+      pure (Json.arr outs.toArray)
+  | "copydepth.run" => do
+      -- histories on a typed list of lists: after every operation what a reader sees through every outer list object
+      let ops ← (← fArr j "ops").mapM (fun o => do
+        match (← fStr o "op") with
+        | "copy" => pure (CopyDepth.Op.copy (← fNat o "a"))
+        | "appendNew" => pure (CopyDepth.Op.appendNew (← fNat o "a"))
+        | "appendAtom" => pure (CopyDepth.Op.appendAtom (← fNat o "b") (← fNat o "n"))
+        | "dropLast" => pure (CopyDepth.Op.dropLast (← fNat o "a"))
+        | other => throw s!"unknown copydepth op {other}")
+      let natArr (xs : List Nat) : Json := Json.arr (xs.map (fun x => Json.num (JsonNumber.fromNat x))).toArray
+      let (_, outs) := ops.foldl (fun (acc : CopyDepth.H × List Json) op =>
+        let h' := CopyDepth.step acc.1 op
+        let views := (List.range h'.cells.length).filterMap (fun a => match h'.get a with
+          | some (.outer _) => some (Json.mkObj [("id", Json.num (JsonNumber.fromNat a)), ("view", Json.arr ((CopyDepth.view h' a).map natArr).toArray)])
+          | _ => none)
+        (h', acc.2 ++ [Json.arr views.toArray])) (CopyDepth.init, [])
       pure (Json.arr outs.toArray)
   | "digest.create" => do
       let salt ← match fieldOpt j "salt" with
